@@ -188,7 +188,7 @@ func main() {
 	defer c.Finish()
 	lib.Init()
 	reg = lib.Reg()
-	coll, err := lib.StartCollector(collector.CollectorInput{Address: "127.0.0.1:0", Protocol: "tcp", MaxBufferSize: 65535})
+	coll, err := lib.StartCollector(collector.CollectorInput{Address: "127.0.0.1:0", Protocol: "tcp", MaxBufferSize: 65535, DecodingMode: collector.DecodingModeStrict}) // (the default mode is nobody's property: say which one is meant)
 	if err != nil {
 		fmt.Println(err)
 		c.Finish()
